@@ -64,7 +64,9 @@ def run_demo(wt, demo):
     # the demonstrations were written to live in <worktree>/_seed/ (some locate input files relative to themselves)
     os.makedirs(os.path.join(wt, "_seed"), exist_ok=True)
     local = os.path.join(wt, "_seed", os.path.basename(demo))
-    shutil.copy(demo, local)
+    for fn in os.listdir(os.path.dirname(demo)):
+        if fn.endswith(".py"):  # a demonstration may import a helper shipped next to it
+            shutil.copy(os.path.join(os.path.dirname(demo), fn), os.path.join(wt, "_seed", fn))
     p = sh([PY, local], env=env, cwd=wt)
     tail = (p.stdout + p.stderr).strip().splitlines()[-1:] or [""]
     return p.returncode, tail[0][:300]
